@@ -217,4 +217,68 @@ theorem BShape.publish {c d : Cfg} (hS : Shape c) (hB : BShape c) {x : Nat × Ev
     · exact hB.bjlt b h
     · exact hS.jlt x hx f hxf
 
+/-! ### the liveness fact along the steps -/
+
+theorem BJoin.nil {c : Cfg} (h : c.joins = []) : BJoin c := by
+  constructor
+  intro j hj; rw [h] at hj; cases hj
+
+/-- the join in memory stays, the record grows, every branch event has the frame data of a branch event there was -/
+theorem BJoin.mono {c d : Cfg} (h : BJoin c) (hj : d.joins = c.joins) (hb : ∀ b ∈ c.batches, b ∈ d.batches)
+    (hev : ∀ p ∈ evK d, ∀ g, brEv p g → ∃ p' ∈ evK c, ∃ g', brEv p' g' ∧ g'.jid = g.jid ∧ g'.mc = g.mc ∧ g'.width = g.width) :
+    BJoin d := by
+  constructor
+  intro j hjm p hp g hg hmc k hk hfull
+  obtain ⟨p', hp', g', hg', h1, h2, h3⟩ := hev p hp g hg
+  rw [hj] at hjm
+  have := h.bdone j hjm p' hp' g' hg' (h2 ▸ hmc) k (by rw [h2, h3]; exact hk) (by rw [h2, h3]; exact hfull)
+  rw [h1, h2] at this
+  exact hb _ this
+
+/-- **the end of a branch** (slot `f.idx` of the join is filled; the join is not complete): the liveness fact holds again — for
+the batch of the slot because the re-entry event is published, or was (`hdone`: what `advance_hold_publish` /
+`advance_hold_quiet` leave), for the other batches because nothing changed -/
+theorem BJoin.hold {c d : Cfg} (hS : Shape c) (hB : BShape c) (hJ : BJoin c) (hone : ∀ j ∈ c.joins, c.joins = [j])
+    {x : Nat × EvKind} {f : Frame} (hx : x ∈ evK c) (hxf : brEv x f) (hmc : 0 < f.mc)
+    (hevbr : ∀ p ∈ evK d, ∀ g, brEv p g → p ∈ evK c) (hb : ∀ b ∈ c.batches, b ∈ d.batches)
+    {j' : Join} (hjs : d.joins = [j']) (hfill : ∀ i ∈ j'.filled, i = f.idx ∨ ∃ j ∈ c.joins, i ∈ j.filled)
+    (hdone : batchFull f j'.filled → nextStart f < f.width → (f.jid, nextStart f) ∈ d.batches) : BJoin d := by
+  constructor
+  intro j0 hj0 p hp g hg hgmc k hk hfull
+  rw [hjs] at hj0
+  have hj0' : j0 = j' := by simpa using hj0
+  subst hj0'
+  have hpc := hevbr p hp g hg
+  have hsm := hS.same p hpc x hx g f hg hxf
+  have hm : g.mc = f.mc := hB.samemc p hpc x hx g f hg hxf
+  have hw : g.width = f.width := by simp [Frame.width, hsm.2.1]
+  rw [hm, hw] at hk hfull
+  rw [hsm.1, hm]
+  by_cases hkk : k = f.idx / f.mc
+  · subst hkk
+    have := hdone (fun i hi hb' => hfull i hi hb') (by simp only [nextStart]; rw [Nat.add_mul, Nat.one_mul] at hk; exact hk)
+    simp only [nextStart] at this
+    rw [Nat.add_mul, Nat.one_mul]; exact this
+  · -- the slots of batch `k` were filled before
+    have hold : ∀ i, i < f.width → i / f.mc = k → ∃ j ∈ c.joins, i ∈ j.filled := by
+      intro i hi hik
+      rcases hfill i (hfull i hi hik) with rfl | h
+      · exact absurd hik.symm hkk
+      · exact h
+    have hkw : k * f.mc < f.width := by
+      have : k * f.mc ≤ (k + 1) * f.mc := Nat.mul_le_mul_right _ (by omega)
+      omega
+    obtain ⟨j, hj, _⟩ := hold (k * f.mc) hkw (Nat.mul_div_cancel k hmc)
+    have hall : ∀ i, i < g.width → i / g.mc = k → i ∈ j.filled := by
+      intro i hi hik
+      rw [hw] at hi; rw [hm] at hik
+      obtain ⟨j2, hj2, hi2⟩ := hold i hi hik
+      have := hone j hj
+      rw [this] at hj2
+      have : j2 = j := by simpa using hj2
+      exact this ▸ hi2
+    have := hJ.bdone j hj p hpc g hg hgmc k (by rw [hm, hw]; exact hk) hall
+    rw [hsm.1, hm] at this
+    exact hb _ this
+
 end Asl.Crash
